@@ -5,21 +5,44 @@ import YaegiVerif.Proofs.C06Sim
 namespace YaegiVerif.Unwind
 open YaegiVerif.Expected.C06 (facts)
 
-theorem out_of_runY (fuel : Nat) (p : Code) :
-    (runY facts fuel p).out = (execFnY facts fuel p 0 Frame.fresh ⟨[], []⟩).2.2.2.out := by
-  unfold runY
-  simp only [execBodyY, evalArg]
-  have ha := execFnY_anc facts fuel p 0 Frame.fresh ⟨[], []⟩
-  generalize execFnY facts fuel p 0 Frame.fresh ⟨[], []⟩ = r at ha ⊢
-  obtain ⟨sig, root, rr, w'⟩ := r
+/-- what the embedder sees of the outermost call -/
+def outcomeOf (sig : Sig) (w : World) : Outcome :=
+  match sig with
+  | .normal => ⟨w.out, .ok, true⟩
+  | .panic v => ⟨w.out, .panicErr (some v), true⟩
+  | .fuel => ⟨w.out, if w.hung then .hang else .fuel, !w.hung⟩
+
+/-- `Eval` adds nothing to the outermost call: the root frame has no deferred calls of its own, its runCfg
+    raises the panic again, Execute turns it into an error carrying the value, the root frame ends unlocked -/
+theorem runY_eq (fuel : Nat) (p : Code) :
+    runY facts fuel p = outcomeOf (execFnY facts fuel p 0 Frame.fresh World.init).1
+      (execFnY facts fuel p 0 Frame.fresh World.init).2.2.2 := by
+  have ha := execFnY_anc facts fuel p 0 Frame.fresh World.init
+  rcases h : execFnY facts fuel p 0 Frame.fresh World.init with ⟨sig, root, rr, w'⟩
+  rw [h] at ha
   obtain ⟨rd, rrec, rres, rl⟩ := root
   simp only [Frame.fresh] at ha
   obtain ⟨h1, h2⟩ := ha
   subst h1; subst h2
+  unfold runY
+  simp only [execBodyY, evalArg, h]
   cases sig with
-  | fuel => simp [exitY_expected]
-  | normal => cases rrec <;> simp [exitY_expected, runEntriesY, finishY, pendingOf]
-  | panic v => cases rrec <;> simp [exitY_expected, runEntriesY, finishY, pendingOf]
+  | fuel => simp [exitY_expected, outcomeOf]
+  | normal => cases rrec <;> simp [exitY_expected, runEntriesY, finishY, pendingOf, outcomeOf]
+  | panic v => cases rrec <;> simp [exitY_expected, runEntriesY, finishY, pendingOf, outcomeOf]
+
+theorem specRun_eq (fuel : Nat) (p : Code) :
+    Spec.run fuel p = outcomeOf (Spec.execFn fuel p 0 none 0 World.init).1
+      (Spec.execFn fuel p 0 none 0 World.init).2.2.2.2 := by
+  unfold Spec.run
+  rcases Spec.execFn fuel p 0 none 0 World.init with ⟨sig, c', o', rr, w'⟩
+  cases sig <;> rfl
+
+theorem out_of_runY (fuel : Nat) (p : Code) :
+    (runY facts fuel p).out = (execFnY facts fuel p 0 Frame.fresh World.init).2.2.2.out := by
+  rw [runY_eq]
+  rcases execFnY facts fuel p 0 Frame.fresh World.init with ⟨sig, root, rr, w'⟩
+  cases sig <;> rfl
 
 /-- `defer fmt.Println(t₁, 0); …; defer fmt.Println(tₙ, 0); <tail>` -/
 def deferAll : List String → Code → Code
@@ -40,24 +63,32 @@ theorem spec_body_deferAll (cs : Spec.CallFn) (tail : Code) :
     rw [ih]
     simp [List.map_cons, List.reverse_cons, List.append_assoc]
 
-theorem spec_runDefers_bins (cs : Spec.CallFn) :
-    ∀ (ts : List String) (cur : Option Val) (res : Int) (w : World),
-      Spec.runDefers cs (ts.map fun t => (⟨.bin t, .val 0⟩ : Entry)) cur res w =
-        (.normal, cur, res, { w with out := w.out ++ ts.map fun t => Event.bin t 0 }) := by
+/-- a block of deferred native prints at the top of the stack: each runs once, in stack order, whatever the
+    current panic is; then the rest of the stack -/
+theorem spec_runDefers_bins_app (cs : Spec.CallFn) :
+    ∀ (ts : List String) (rest : List Entry) (cur : Option Val) (res : Int) (w : World),
+      Spec.runDefers cs ((ts.map fun t => (⟨.bin t, .val 0⟩ : Entry)) ++ rest) cur res w =
+        Spec.runDefers cs rest cur res { w with out := w.out ++ ts.map fun t => Event.bin t 0 } := by
   intro ts
   induction ts with
-  | nil => intro cur res w; simp [Spec.runDefers]
+  | nil => intro rest cur res w; simp
   | cons t ts ih =>
-    intro cur res w
-    simp only [List.map_cons, Spec.runDefers, SArg.get]
+    intro rest cur res w
+    simp only [List.map_cons, List.cons_append, Spec.runDefers, SArg.get]
     rw [ih]
     simp [World.emit, List.append_assoc]
 
-theorem dom_deferAll (tail : Code) (hd : ∀ s, domBody tail s = true) :
-    ∀ (ts : List String) (s : Bool), domBody (deferAll ts tail) s = true := by
+theorem spec_runDefers_bins (cs : Spec.CallFn) (ts : List String) (cur : Option Val) (res : Int) (w : World) :
+    Spec.runDefers cs (ts.map fun t => (⟨.bin t, .val 0⟩ : Entry)) cur res w =
+      (.normal, cur, res, { w with out := w.out ++ ts.map fun t => Event.bin t 0 }) := by
+  have := spec_runDefers_bins_app cs ts [] cur res w
+  simpa [Spec.runDefers] using this
+
+theorem noHeld_deferAll (tail : Code) (hd : noHeld tail = true) :
+    ∀ (ts : List String), noHeld (deferAll ts tail) = true := by
   intro ts
   induction ts with
-  | nil => intro s; exact hd s
-  | cons t ts ih => intro s; simp [deferAll, domBody, ih]
+  | nil => exact hd
+  | cons t ts ih => simpa [deferAll, noHeld] using ih
 
 end YaegiVerif.Unwind
